@@ -1166,7 +1166,20 @@ func (c *Ctx) mustWriteMeta(g *ssa.Function, busy map[*ssa.Function]bool) bool {
 	}
 	r := c.Roles()
 	if r.isMetaWriter(g) {
-		return true
+		// the writer itself puts the record into the store on every path that can succeed (no "unchanged:
+		// nothing to write" shortcut: the write is what makes two writers of a collection conflict)
+		setBlocks := map[*ssa.BasicBlock]bool{}
+		for _, b := range g.Blocks {
+			for _, in := range b.Instrs {
+				if ci, ok := in.(ssa.CallInstruction); ok && ci.Common().IsInvoke() && ci.Common().Method != nil && ci.Common().Method.Name() == "Set" {
+					setBlocks[b] = true
+				}
+			}
+		}
+		if len(setBlocks) == 0 {
+			return true // the store is written by a callee: not looked into
+		}
+		return c.successWithoutCut(g, []edge2{{nil, g.Blocks[0]}}, setBlocks, nil) == ""
 	}
 	busy[g] = true
 	defer delete(busy, g)
